@@ -11,14 +11,21 @@ Definition multichunk (n_lines : nat) : bool := Nat.ltb CHUNK n_lines.
 Definition known_C13_n3 (doc : list item) (x : db) : bool :=
   dict_nonempty (d_dict x) || multichunk (length doc).
 
-(* C13-literal-recleaned: parse_ntriples_line / parse_nquads_line decode a literal to its value and
-   encode_term_star then treats that VALUE as a term again: it trims it, strips <...>, and decodes or
-   unquotes it when it starts with a quote. *)
+(* C13-literal-recleaned.  encode_term_star treats a VALUE as a term again: it trims it, strips <...>, and decodes
+   or unquotes it when it starts with a quote.  Since fix 16f77b9 the N-Triples / N-Quads loaders intern a cleaned term
+   verbatim (encode_cleaned_term) unless it starts with "<<" and ends with ">>" - that residue is `term_looks_quoted`;
+   the full re-cleaning (`term_recleaned`) still applies to Turtle statements that go through encode_term_star. *)
 Definition unstable_lex (s : str) : bool :=
   negb (str_eqb (trim s) s) || starts_with_c cDQ s || (starts_with_c cLT s && ends_with_c cGT s).
 Definition term_recleaned (t : term) : bool :=
   match t with
   | TLit _ _ => unstable_lex (lex [] t)
+  | _ => false
+  end.
+Definition looks_quoted (s : str) : bool := starts_with sLTLT s && ends_with sGTGT s.
+Definition term_looks_quoted (t : term) : bool :=
+  match t with
+  | TLit _ _ => looks_quoted (lex [] t)
   | _ => false
   end.
 Definition item_terms (i : item) : list term :=
@@ -28,7 +35,7 @@ Definition item_terms (i : item) : list term :=
   | _ => []
   end.
 Definition known_C13_reclean (doc : list item) : bool :=
-  existsb (fun i => existsb term_recleaned (item_terms i)) doc.
+  existsb (fun i => existsb term_looks_quoted (item_terms i)) doc.
 
 (* C13-n3-literal-quoted: parse_statement/resolve_term keep the quotes (and the datatype) of a literal. *)
 Definition is_literal (t : term) : bool := match t with TLit _ _ => true | _ => false end.
